@@ -658,7 +658,7 @@ func (x *prioExec) progressProbe() {
 	before := x.res.Received
 	ok := x.await(prioL, func() bool { return x.res.Received > before })
 	x.res.Probes++
-	if !ok && !x.termSeen {
+	if !ok && !x.termSeen && !x.mon.faulted.Load() {
 		x.fail("C06", "no-progress-idle", "nothing in flight, no release outstanding and an input holds undelivered data, but nothing was delivered within %s (virtual)", prioL)
 	}
 }
@@ -707,7 +707,7 @@ func (x *prioExec) aloneProbe(op POp) {
 	x.ctl.SetPhase("await-all-handlers-for-single-priority", "C06")
 	ok := x.await(prioL+time.Duration(n)*200*time.Nanosecond, func() bool { return len(x.held) >= int(x.sc.H) })
 	x.res.AloneProbes++
-	if !ok && !x.termSeen {
+	if !ok && !x.termSeen && !x.mon.faulted.Load() {
 		x.fail("C06", "alone-not-granted-all", "priority %d alone has %d items and nothing is in flight, but only %d of %d handlers were occupied within the progress window (no release issued)", op.P, n, len(x.held), x.sc.H)
 	}
 }
@@ -720,6 +720,9 @@ func (x *prioExec) saturationCheckpoint() {
 	x.ctl.SetPhase("await-full-occupation-under-saturation", "C05")
 	ok := x.await(prioL, func() bool { return len(x.held) >= int(x.sc.H) })
 	if !x.armed() {
+		return
+	}
+	if !ok && x.mon.faulted.Load() {
 		return
 	}
 	if !ok {
@@ -996,7 +999,7 @@ func runPrioV(sc PrioScenario, ctl *bubbleCtl) *prioResult {
 	div := customDivider(sc.Divider, sc.DivSeed)
 	x.shares = sharesOf(div, prios, sc.H)
 	x.mon = newDivMonitor(x, div)
-	b := prioBuild{Ver: sc.Ver, Div: x.mon.divide, H: sc.H, OutCap: sc.OutCap, FbCap: sc.FbCap, Abort: x.abort, Entered: total + 8*int(sc.H) + 4096}
+	b := prioBuild{Ver: sc.Ver, Div: x.mon.divide, DivV1: x.mon.divideV1, H: sc.H, OutCap: sc.OutCap, FbCap: sc.FbCap, Abort: x.abort, Entered: total + 8*int(sc.H) + 4096}
 	for _, in := range x.chans {
 		b.Inputs = append(b.Inputs, in)
 	}
@@ -1007,8 +1010,17 @@ func runPrioV(sc PrioScenario, ctl *bubbleCtl) *prioResult {
 		res.RejectedErr = err
 		res.DivCalls = int(x.mon.calls.Load())
 		res.FaultHit = x.mon.faulted.Load()
+		if res.FaultHit && !errors.Is(err, v2prio.ErrDividerBad) && !errors.Is(err, v1prio.ErrDividerBad) {
+			x.fail("C15", "constructor-wrong-error", "divider fault during creation (%s): New returned %q instead of ErrDividerBad", x.mon.faultDesc, err.Error())
+		}
 		x.mon.report()
 		return res
+	}
+	if x.mon.faulted.Load() && !sc.isV1() && sc.Fault.Trigger == "" && sc.Fault.At == 0 {
+		// call #0 of a v2 discipline is the share computation inside New (later calls may
+		// already come from the scheduler goroutine, which New starts before it returns)
+		res.FaultHit = true
+		x.fail("C15", "constructor-accepted-fault", "divider fault during creation (%s) but New returned no error", x.mon.faultDesc)
 	}
 	x.sys = sys
 	for _, in := range x.chans {
